@@ -1,7 +1,7 @@
 //! Differential properties against the reference interpreter: C02, C03, C04, C14 and the
 //! inner-ending part of C06.
 
-use super::seq_inv::{op_classes, render, run_seq, seq_strategy, SeqCase};
+use super::seq_inv::{case_size, op_classes, render, run_seq, seq_strategy, SeqCase};
 use super::*;
 use crate::val::{MapF, Pred, RPred};
 use crate::ast::*;
@@ -195,6 +195,30 @@ fn c02_strategy(ctx: &Ctx) -> BoxedStrategy<SeqCase> {
       hash_seed,
     })
     .boxed()
+}
+
+/// the same chains at sizes the other generators never reach: inputs of tens of items, count
+/// parameters up to 300 (around 128 and 256 in particular)
+fn c02_large_strategy(ctx: &Ctx) -> BoxedStrategy<SeqCase> {
+  let cfg = GenCfg { big: true, max_script: 60, ..c02_cfg(ctx) };
+  (gen::chain(&cfg, 1, 3), 0u64..4)
+    .prop_map(|(root, hash_seed)| SeqCase {
+      case: Case { root, hots: vec![], hot_illformed: false, conn: None, conn_take: None, recorders: vec![vec![]], actions: vec![Action::Subscribe(0)] },
+      hash_seed,
+    })
+    .boxed()
+}
+
+fn large_class(rep: &mut Report, c: &SeqCase) {
+  let size = case_size(&c.case);
+  rep.classes.push(format!("size:{}", if size <= 40 { "<=40" } else if size <= 120 { "41-120" } else { ">120" }));
+  rep.nontrivial = rep.nontrivial && size > 40;
+}
+
+fn c02_large_check(ctx: &Ctx, c: &SeqCase) -> Report {
+  let mut rep = c02_check(ctx, c);
+  large_class(&mut rep, c);
+  rep
 }
 
 /// single-source operators over a hot source whose subscriber pushes further items into that
@@ -676,6 +700,46 @@ fn c04_cfg(ctx: &Ctx) -> CaseCfg {
   }
 }
 
+fn large_case_cfg(mut cfg: CaseCfg) -> CaseCfg {
+  cfg.gen.big = true;
+  cfg.gen.depth = 2;
+  cfg.gen.max_nodes = 8;
+  cfg.gen.max_script = 30;
+  cfg.hot_script = 30;
+  cfg
+}
+
+fn c03_large_check(ctx: &Ctx, c: &SeqCase) -> Report {
+  let mut rep = c03_check(ctx, c);
+  large_class(&mut rep, c);
+  rep
+}
+
+fn c04_large_check(ctx: &Ctx, c: &SeqCase) -> Report {
+  let mut rep = c04_check(ctx, c);
+  large_class(&mut rep, c);
+  rep
+}
+
+fn c14_large_strategy(ctx: &Ctx) -> BoxedStrategy<SeqCase> {
+  let mut cfg = large_case_cfg(c14_cfg(ctx));
+  cfg.max_rec = 12;
+  seq_strategy(cfg)
+    .prop_map(|mut c| {
+      for r in c.case.recorders.iter_mut() {
+        r.retain(|x| matches!(x.what, React::Subscribe(_)));
+      }
+      c
+    })
+    .boxed()
+}
+
+fn c14_large_check(ctx: &Ctx, c: &SeqCase) -> Report {
+  let mut rep = c14_check(ctx, c);
+  large_class(&mut rep, c);
+  rep
+}
+
 pub(crate) fn c04_check(_ctx: &Ctx, c: &SeqCase) -> Report {
   let out = diff(c, DiffOpts { check_persub_counts: true, ..Default::default() });
   let mut rep = out.rep;
@@ -769,6 +833,70 @@ fn c04_hot_strategy(_ctx: &Ctx) -> BoxedStrategy<SeqCase> {
       }
     })
     .boxed()
+}
+
+/// retry budgets over attempts that fail at different moments: a source whose k-th
+/// subscription fails inside subscribe() or stays silent, merged with a hot source whose
+/// errors fail the attempt that is parked on it later, from the driver. The budget counts
+/// attempts, whenever they fail.
+fn c04_mixed_strategy(_ctx: &Ctx) -> BoxedStrategy<SeqCase> {
+  let attempt = (prop::collection::vec(0i64..6, 0..=2), prop_oneof![3 => (1u32..4).prop_map(Some), 2 => Just(None)]);
+  let attempts = prop::collection::vec(attempt, 2..=6);
+  let seg = || prop::collection::vec(0i64..6, 0..=1);
+  let segs = prop::collection::vec((seg(), 1u32..4), 1..=4);
+  (attempts, segs, 0u8..3, 0u8..4, 1usize..=5, any::<bool>(), 0u64..4)
+    .prop_map(|(attempts, segs, ending, rec, n, polite, hash_seed)| {
+      let scripts: Vec<Vec<Ev>> = attempts
+        .into_iter()
+        .map(|(items, end)| {
+          let mut s: Vec<Ev> = items.into_iter().map(Ev::N).collect();
+          if let Some(c) = end {
+            s.push(Ev::E(c));
+          }
+          s
+        })
+        .collect();
+      let mut script: Vec<Ev> = Vec::new();
+      for (items, code) in segs {
+        script.extend(items.into_iter().map(Ev::N));
+        script.push(Ev::E(code));
+      }
+      match ending {
+        0 => script.push(Ev::C),
+        1 => script.push(Ev::E(7)),
+        _ => {}
+      }
+      let src = Node::Nary(Comb::Merge, vec![Node::Src(0, Src::PerSub { scripts, polite }), Node::Src(0, Src::Hot(0))]);
+      let mut root = match rec {
+        0 | 1 | 2 => Node::Un(Op::Retry(n), Box::new(src)),
+        _ => Node::Un(Op::RetryWhen(RPred::CodeLt(n as u32)), Box::new(src)),
+      };
+      gen::sanitize_tree(&mut root);
+      let mut actions = vec![Action::Subscribe(0)];
+      actions.extend(script.into_iter().map(|e| Action::Emit(0, e)));
+      SeqCase {
+        case: Case { root, hots: vec![HotKind::Harness], hot_illformed: false, conn: None, conn_take: None, recorders: vec![vec![]], actions },
+        hash_seed,
+      }
+    })
+    .boxed()
+}
+
+fn c04_mixed_check(ctx: &Ctx, c: &SeqCase) -> Report {
+  let mut rep = c04_check(ctx, c);
+  // non-trivial: attempts failed both inside subscribe() and later
+  let mut sync_fail = false;
+  c.case.root.walk(&mut |n| {
+    if let Node::Src(_, Src::PerSub { scripts, .. }) = n {
+      sync_fail = scripts.iter().any(|s| matches!(s.last(), Some(Ev::E(_))));
+    }
+  });
+  let late = c.case.actions.iter().filter(|a| matches!(a, Action::Emit(_, Ev::E(_)))).count();
+  if sync_fail && late >= 1 {
+    rep.classes.push("attempts-fail-inside-subscribe-and-later".into());
+  }
+  rep.nontrivial = rep.sample.is_some() && sync_fail && late >= 1;
+  rep
 }
 
 fn c04_hot_check(ctx: &Ctx, c: &SeqCase) -> Report {
@@ -968,39 +1096,46 @@ pub fn properties() -> Vec<Property> {
   vec![
     Property {
       id: "C02",
-      rule: "cases = one source (cold script of 0..8 items over -3..6 ending in complete / error / silence, or a creation function) under a chain of 1..4 (thorough 6) single-source operators with parameters 0..5 and functions from the fixed family; oracle = exact trace equality with the reference interpreter (+ tap log, defer/start factory calls); non-trivial = chain length >= 2 or a boundary parameter (0, 1, len-1, len, len+1) or an empty / erroring / silent input",
+      rule: "cases = one source (cold script of 0..8 items over -3..6 ending in complete / error / silence, or a creation function) under a chain of 1..4 (thorough 6) single-source operators with parameters 0..5 and functions from the fixed family; oracle = exact trace equality with the reference interpreter (+ tap log, defer/start factory calls); non-trivial = chain length >= 2 or a boundary parameter (0, 1, len-1, len, len+1) or an empty / erroring / silent input; large: the same chains (1..3 operators) over inputs of up to 60 scripted / 300 generated items with count parameters from {0..9, 10..70, 127..129, 255..257, 300, 65535, 65536, u32::MAX, u32::MAX+1, isize::MAX, isize::MAX+1, usize::MAX-1, usize::MAX}, non-trivial = size > 40",
       assumptions: vec!["reference interpreter harness/src/model.rs with the conventions of DESIGN.md 2.5", "take(0) follows the crate (completes at the first item)"],
       subs: vec![
         mk_sub("chains", (2000, 40_000), c02_strategy, c02_check),
         mk_sub("reentrant_source", (600, 12_000), c02_reentrant_strategy, c02_reentrant_check),
+        mk_sub("large", (300, 6_000), c02_large_strategy, c02_large_check),
       ],
     },
     Property {
       id: "C03",
-      rule: "cases = pipelines with merge / concat / zip / combine_latest / amb / take_until / skip_until / sample / flat_map nested with single-source operators over 0..3 hot sources (scripts interleaved by a generated order) and cold sources; oracle = exact trace equality with the reference; non-trivial = a combining operator is present and the driver order switches hot source at least once or hot and cold inputs are mixed; switch_on_next: two hot inputs, histories whose outcome no bookkeeping order can change (source items, the target's first item, a mix of both, the target's terminal), expected trace computed from the history",
+      rule: "cases = pipelines with merge / concat / zip / combine_latest / amb / take_until / skip_until / sample / flat_map nested with single-source operators over 0..3 hot sources (scripts interleaved by a generated order) and cold sources; oracle = exact trace equality with the reference; non-trivial = a combining operator is present and the driver order switches hot source at least once or hot and cold inputs are mixed; switch_on_next: two hot inputs, histories whose outcome no bookkeeping order can change (source items, the target's first item, a mix of both, the target's terminal), expected trace computed from the history; large: scripts of up to 30 items per input and the large count parameters of C02, non-trivial = size > 40",
       assumptions: vec!["inputs are subscribed left to right, triggers first (as the crate does)", "trigger errors / completions have no effect (RxJS reading)"],
       subs: vec![
         mk_sub("combine", (1500, 30_000), |ctx| seq_strategy(c03_cfg(ctx)).prop_map(single_reference_subjects).boxed(), c03_check),
         mk_sub("sequence_equal", (500, 10_000), c03_seq_eq_strategy, c03_seq_eq_check),
         mk_sub("ready_set_go", (300, 5_000), c03_rsg_strategy, c03_rsg_check),
         mk_sub("switch_on_next", (300, 5_000), c03_switch_strategy, c03_switch_check),
+        mk_sub("large", (200, 4_000), |ctx| seq_strategy(large_case_cfg(c03_cfg(ctx))).prop_map(single_reference_subjects).boxed(), c03_large_check),
       ],
     },
     Property {
       id: "C04",
-      rule: "cases = C02/C03 pipelines with error-heavy scripts (error at every position), retry(1..4), retry_when(never | code<k), on_error_resume_next with a table of resume pipelines, sources whose k-th subscription plays a different script; plus retry / retry_when / on_error_resume_next over a Subject (erring up to three times and going on), BehaviorSubject or ReplaySubject as the source, resubscribed from inside the subject's own error delivery; oracle = trace equality with the reference, error delivered once and last with the original payload type, subscription counts of per-subscription sources; metamorphic: o.materialize().dematerialize() == o; non-trivial = an error passed an operator after >= 1 item, or a resubscription happened",
+      rule: "cases = C02/C03 pipelines with error-heavy scripts (error at every position), retry(1..4), retry_when(never | code<k), on_error_resume_next with a table of resume pipelines, sources whose k-th subscription plays a different script; plus retry / retry_when / on_error_resume_next over a Subject (erring up to three times and going on), BehaviorSubject or ReplaySubject as the source, resubscribed from inside the subject's own error delivery; oracle = trace equality with the reference, error delivered once and last with the original payload type, subscription counts of per-subscription sources; metamorphic: o.materialize().dematerialize() == o; non-trivial = an error passed an operator after >= 1 item, or a resubscription happened; large: retry budgets up to 300 and long scripts; retry_mixed: retry(1..5) / retry_when(code<k) over merge(source whose k-th subscription fails inside subscribe() or stays silent, hot source whose errors fail the parked attempt later), subscription counts against the reference, non-trivial = attempts failed both ways",
       assumptions: vec!["retry(n): n or n+1 subscriptions accepted (convention vector)"],
       subs: vec![
         mk_sub("recovery", (1500, 30_000), |ctx| seq_strategy(c04_cfg(ctx)), c04_check),
         mk_sub("roundtrip", (800, 15_000), |ctx| seq_strategy(c04_cfg(ctx)), c04_roundtrip_check),
         mk_sub("subject_source", (800, 15_000), c04_hot_strategy, c04_hot_check),
+        mk_sub("large", (200, 4_000), |ctx| seq_strategy(large_case_cfg(c04_cfg(ctx))), c04_large_check),
+        mk_sub("retry_mixed", (500, 10_000), c04_mixed_strategy, c04_mixed_check),
       ],
     },
     Property {
       id: "C14",
-      rule: "cases = C02-C04 pipelines subscribed by 2..3 recorders: one after another, interleaved on hot sources (second joins mid-stream), nested (second subscribe from inside a callback of the first); oracle = every subscriber's trace equals the reference trace of an independent subscription, tap log and factory calls per subscription; non-trivial = >= 2 subscriptions to a pipeline with a stateful operator",
+      rule: "cases = C02-C04 pipelines subscribed by 2..3 recorders: one after another, interleaved on hot sources (second joins mid-stream), nested (second subscribe from inside a callback of the first); oracle = every subscriber's trace equals the reference trace of an independent subscription, tap log and factory calls per subscription; non-trivial = >= 2 subscriptions to a pipeline with a stateful operator; large: up to 12 recorders, scripts of up to 30 items, large count parameters",
       assumptions: vec!["harness hot sources serve observers in subscription order on both sides"],
-      subs: vec![mk_sub("resubscribe", (1500, 30_000), c14_strategy, c14_check)],
+      subs: vec![
+        mk_sub("resubscribe", (1500, 30_000), c14_strategy, c14_check),
+        mk_sub("large", (200, 4_000), c14_large_strategy, c14_large_check),
+      ],
     },
   ]
 }
